@@ -160,7 +160,7 @@ class World(cpool.World):
         c, t, loop = self.cfg, self.tape, self.loop
         await self.pool.start()
         self.pool_started = True
-        self.ev('pool_started', len(self.pool._workers))
+        self.ev('pool_started', len(getattr(self.pool, '_workers', ())))
         for s in self.sessions:
             self.client_tasks.append(loop.harness_task(self.session_task(s)))
         horizon = c['nsteps'] * (c['think'] + c['svc'] + 2)
